@@ -348,6 +348,19 @@ def features(spec):
         if len(outs) == 1:
             dl = l["lam"] - outs[0]["lam"]
             f.add("lane-drop>0" if dl > 0 else "lane-drop<0" if dl < 0 else "lane-drop=0")
+    if len(spec["links"]) > 16:
+        f.add("links>16")
+    if any(v >= 3 for v in indeg.values()):
+        f.add("merge>=3")
+    lnames = {l["name"]: l["N"] for l in spec["links"]}
+    if any(l["N"] >= 2 and any(f"{l['name']}_{k}" in lnames for k in range(l["N"])) for l in spec["links"]):
+        f.add("names:entry-collision")
+    for n in spec["nodes"]:
+        tr = [float(l["turnrate"]) for l in out_links(spec, n["id"])]
+        if tr and max(tr) < 1e-9:
+            f.add("turnrates:tiny")
+        if len(tr) >= 2 and sum(tr) != 1.0 and abs(sum(tr) - 1.0) <= 1e-5:
+            f.add("turnrates:sum-nearly-one")
     return f
 
 
